@@ -263,6 +263,15 @@ impl BucketedPool {
   }
 }
 
+/// Verification hook (compiled only with `--cfg narwhal_verif`): read-only view of the bucket geometry.
+#[cfg(narwhal_verif)]
+impl BucketedPool {
+  /// `(buffer count, buffer size, currently available)` per bucket, smallest bucket first.
+  pub fn verif_geometry(&self) -> Vec<(usize, usize, usize)> {
+    self.buckets.iter().map(|b| (b.0.available.capacity(), b.buffer_size(), b.available_count())).collect()
+  }
+}
+
 impl std::fmt::Debug for BucketedPool {
   fn fmt(&self, f: &mut std::fmt::Formatter<'_>) -> std::fmt::Result {
     f.debug_struct("BucketedPool")
